@@ -110,6 +110,8 @@ IDG = dict(name='GeneratePeopleDict+Consume', probe='k16', fam=['idn'], quick=40
            rule='commit lists whose names/e-mails share tokens, mixed case, empty fields')
 IDM = dict(name='MergeReversedDictsIdentities', probe='k18i', fam=['idn'], quick=15000, thorough=400000,
            nontrivial=nt_any, rule='pairs of identity lists, a third malformed (shared token inside one list)')
+DC = dict(name='DevsAnalysis.Consume over replay sequences', probe='k12d', fam=['idn'], quick=10000, thorough=400000, nontrivial=nt_any,
+          rule='1-8 replays of 1-5 commits (0-3 parents, merge commits replayed repeatedly), 3 developers + the unmatched author, 4 languages incl. the empty one, empty commits counted or not')
 CM = dict(name='CouplesAnalysis.MergeResults', probe='k18m', fam=['idn'], quick=6000, thorough=200000, nontrivial=nt_any,
           rule='pairs of couples results over 6 file names and 2 identity pools (shared e-mails / names), unmatched-author rows, zero cells')
 DEV = dict(name='DevsAnalysis.MergeResults', probe='k18d', fam=['idn'], quick=8000, thorough=200000, nontrivial=nt_any,
@@ -247,7 +249,7 @@ PROPS = {
     'C09': dict(corr=[RUN, HB, HBF, K09B, E01]),
     'C10': dict(level='translation_validation', corr=[RES, E10, E10S]),
     'C11': dict(corr=[LN, K11D, E11, E11W]),
-    'C12': dict(corr=[LN, LNC, ONES, RUN, E14]),
+    'C12': dict(corr=[LN, LNC, ONES, DC, RUN, E14]),
     'C13': dict(corr=[RN, RNH, RNHR]),
     'C14': dict(corr=[RUN, E14]),
     'C15': dict(corr=[TS]),
